@@ -176,6 +176,33 @@ fn bytes_views(max_limbs: usize) -> impl Fn(&mut Tape, &mut Case) -> CaseResult 
         veq!(bl(&BoxedUint::from(lv.clone().into_boxed_slice())), xl, "From<Box<[Limb]>>");
         veq!(bl(&BoxedUint::from(xl.clone())), xl, "From<Vec<Word>>");
         veq!(bl(&BoxedUint::from_words(xl.iter().copied())), xl, "from_words");
+        // the same conversions with the argument object in another state: iterators whose size_hint
+        // is not exact (lower bound 0, or below the length) and vectors with spare capacity
+        veq!(bl(&BoxedUint::from_words(xl.iter().copied().filter(|_| true))), xl, "from_words(filter iterator, size_hint lower bound 0)");
+        {
+            let h = nl / 2;
+            let it = xl[..h].iter().copied().chain(xl[h..].iter().copied().filter(|_| true));
+            veq!(bl(&BoxedUint::from_words(it)), xl, "from_words(chain of exact and filtered parts)");
+            let mut k = 0;
+            let src = xl.clone();
+            let it = core::iter::from_fn(move || {
+                k += 1;
+                src.get(k - 1).copied()
+            });
+            veq!(bl(&BoxedUint::from_words(it)), xl, "from_words(from_fn iterator)");
+        }
+        {
+            let mut wv: Vec<Word> = Vec::with_capacity(nl + 1 + (xl[0] % 5) as usize);
+            wv.extend_from_slice(&xl);
+            veq!(bl(&BoxedUint::from(wv)), xl, "From<Vec<Word>> (spare capacity)");
+            let mut wv: Vec<Word> = xl.clone();
+            wv.push(7);
+            wv.pop();
+            veq!(bl(&BoxedUint::from(wv)), xl, "From<Vec<Word>> (after push + pop)");
+            let mut lv2: Vec<Limb> = Vec::with_capacity(2 * nl + 3);
+            lv2.extend_from_slice(&lv);
+            veq!(bl(&BoxedUint::from(lv2)), xl, "From<Vec<Limb>> (spare capacity)");
+        }
         let i = t.index(nl);
         let nw = gen::word(t);
         c.num("i", i as u64);
